@@ -523,11 +523,13 @@ def check_c07(run: Run) -> None:
                       f'lf {lfi}: {n} objects share identity {key} (sets {set_of[key]})')
         # origin fields
         for k, x in dl.sequence:
-            if k != 'E' or x.type == 'FILE-HEADER':
+            if k != 'E':
                 continue
             for o in x.objects:
+                if x.type == 'FILE-HEADER':
+                    run.obs['header-origin-field-checked'] += 1
                 if o.name[0] not in origin_refs:
-                    run.v('C07', 'origin-field-unknown', 'origin-field-unknown',
+                    run.v('C07', 'origin-field-unknown', 'origin-field-unknown' + (':file-header' if x.type == 'FILE-HEADER' else ''),
                           f'lf {lfi}: {x.type} {o.name} has origin {o.name[0]}, ORIGIN objects have {origin_refs}')
         # every reference resolves to exactly one object of this logical file
         names = Counter()
@@ -592,6 +594,9 @@ def check_c07(run: Run) -> None:
             # an ORIGIN object given an explicit reference carries that reference
             if eo.op == 'origin':
                 own = run.spec['ops'][eo.op_index].get('attrs', {}).get('origin_reference')
+                for op_ in run.spec['ops']:
+                    if op_.get('op') == 'setattr' and op_.get('target') == eo.op_index and op_.get('field') == 'origin_reference':
+                        own = op_['value']      # (re-assigned after creation)
                 if isinstance(own, int) and not isinstance(own, bool):
                     run.obs['origin-own-reference-checked'] += 1
                     if do.name[0] != own:
@@ -651,6 +656,30 @@ def _cast_of(spec, ci):
     if c is None:
         return None
     return np.dtype(c['$dtype']) if isinstance(c, dict) else np.dtype(c)
+
+
+def uncastable(arr, cast) -> Optional[str]:
+    """Why the declared cast of these floating-point values has no defined result (numpy: undefined behaviour, in practice
+    dependent on how many values are converted at once and on their memory layout), or None if every value has one.
+    float -> integer: defined iff the value is finite and its truncation lies in the target's range (then it is numpy's
+    result on every path); float -> narrower float: a finite value must not become infinite."""
+    cast = np.dtype(cast)
+    if arr.dtype.kind != 'f' or arr.size == 0:
+        return None
+    a = np.asarray(arr, dtype=np.float64)
+    if cast.kind in 'iu':
+        info = np.iinfo(cast)
+        t = np.trunc(a)
+        with np.errstate(invalid='ignore'):
+            bad = ~np.isfinite(a) | (t < float(info.min)) | (t >= float(info.max) + 1.0)
+        if bad.any():
+            return f'{a[bad].ravel()[0]!r} -> {cast.name}'
+    elif cast.kind == 'f' and cast.itemsize < arr.dtype.itemsize:
+        with np.errstate(over='ignore', invalid='ignore'):
+            bad = np.isfinite(a) & np.isinf(a.astype(cast))
+        if bad.any():
+            return f'{a[bad].ravel()[0]!r} -> {cast.name}'
+    return None
 
 
 def expected_rows(run: Run, fr) -> Optional[list]:
